@@ -39,6 +39,11 @@ ASSUMPTIONS = [
     'handlers of AppCfgMgr, MonitorContainerCleanup.execute and Cleanup.invoke are atomic with '
     'respect to each other (each is driven to completion before the next event); interleavings '
     'inside _synchronize are not explored',
+    'a kill of the manager is injected inside its handlers before each os.symlink / os.replace / '
+    'os.rename / os.link call (BaseException out of the k-th call), followed by a restart of the '
+    'manager with nothing cleared; names starting with a dot in running/ and cleanup/ (staged '
+    'temporaries of fs.symlink_safe) are links for nobody, as for glob, s6-svscan and the cleanup '
+    'service; the other processes are not killed',
     'directory events are the ones a real inotify watch on cache/ produced, handled one at a time, '
     'in order, arbitrarily late; events for dot-prefixed temporary files are delivered and ignored '
     'by the handlers',
